@@ -43,12 +43,39 @@ class StackUnderflow(Exception):
     pass
 
 
+class Malformed(Exception):
+    """not a valid assembly item (PUSH constant >= 2^256 or not hexadecimal, DUP/SWAP depth outside 1..16)"""
+
+
+def push_value(value):
+    try:
+        v = int(str(value), 16)
+    except (TypeError, ValueError):
+        raise Malformed("PUSH operand %r is not a hexadecimal numeral" % (value,))
+    if v < 0 or v > MASK or str(value).strip().lower().startswith(("-", "0x", "+")):
+        raise Malformed("PUSH operand %r is not a canonical constant below 2^256" % (value,))
+    return v
+
+
 def is_num(t):
     return z3.is_bv_value(t)
 
 
 def num(t):
     return t.as_long()
+
+
+def pseudo_key(name, value):
+    """identity of a pseudo-push operand: the number it denotes (hex for data/immutable hashes, decimal otherwise)"""
+    if isinstance(value, int):
+        return (name, value)
+    v = str(value)
+    try:
+        if name in ("PUSH data", "PUSHIMMUTABLE"):
+            return (name, int(v, 16))
+        return (name, int(v, 10))
+    except ValueError:
+        return (name, v)
 
 
 class Ctx:
@@ -433,24 +460,24 @@ def execute(ctx, instrs, n_inputs):
         if name in ("tag", "JUMPDEST"):
             continue
         if name == "PUSH":
-            push(BV(int(value, 16)))
+            push(BV(push_value(value)))
         elif name == "PUSH0":
             push(BV(0))
         elif name in PSEUDO_PUSH_V:
-            push(ctx.const((name, str(value))))
+            push(ctx.const(pseudo_key(name, value)))
         elif name in PSEUDO_PUSH_N:
             push(ctx.const((name,)))
         elif name.startswith("DUP"):
             k = int(name[3:])
             if not 1 <= k <= 16:
-                raise Unsupported(name)
+                raise Malformed(name)
             if len(S) < k:
                 raise StackUnderflow()
             push(S[-k])
         elif name.startswith("SWAP"):
             k = int(name[4:])
             if not 1 <= k <= 16:
-                raise Unsupported(name)
+                raise Malformed(name)
             if len(S) < k + 1:
                 raise StackUnderflow()
             S[-1], S[-1 - k] = S[-1 - k], S[-1]
